@@ -16,7 +16,7 @@ running and is never recorded as finished, nor is anything after it in the same 
 theorem fail_propagates (h : Hyp cfg rank) (hs : StartOK cfg (den cfg P rank) st0)
     (choices : List Nat) (s' : Sys α) (k : Key) (hrun : mainLoop cfg P choices (sys0 st0) = .ok (s', .failed k)) :
     P.fails k = true ∧ k ∈ s'.st.running ∧ k ∉ s'.st.finished ∧ k ∉ postKeys s'.log := by
-  obtain ⟨_, _, _, _, hfailed⟩ := reach_inv P (den_fixpoint cfg P rank h) h.nw h.cs rank h.acyclic hs hrun
+  obtain ⟨_, _, _, _, hfailed, _⟩ := reach_inv P (den_fixpoint cfg P rank h) h.nw h.cs rank h.acyclic hs hrun
   obtain ⟨hf, rest', hB, hk⟩ := hfailed k rfl
   have hrun' : k ∈ s'.st.running := (hB.running k).mp (Or.inr hk)
   have hnf := hB.inv.runningFinished k hrun'
@@ -40,7 +40,7 @@ theorem no_dependent_of_failed_runs (h : Hyp cfg rank) (hs : StartOK cfg (den cf
     (choices : List Nat) (s' : Sys α) (k : Key) (hrun : mainLoop cfg P choices (sys0 st0) = .ok (s', .failed k))
     (j : Key) (hj : DependsOn s'.st k j) :
     j ∉ preKeys s'.log ∧ j ∉ s'.st.ready ∧ j ∉ s'.st.running ∧ j ∉ s'.st.finished := by
-  obtain ⟨_, _, _, _, hfailed⟩ := reach_inv P (den_fixpoint cfg P rank h) h.nw h.cs rank h.acyclic hs hrun
+  obtain ⟨_, _, _, _, hfailed, _⟩ := reach_inv P (den_fixpoint cfg P rank h) h.nw h.cs rank h.acyclic hs hrun
   obtain ⟨_, rest', hB, hk⟩ := hfailed k rfl
   have hrun' : k ∈ s'.st.running := (hB.running k).mp (Or.inr hk)
   obtain ⟨a, b, c⟩ := hB.inv.blocked_by_unfinished (hB.inv.runningTask k hrun').2 (hB.inv.runningFinished k hrun') hj
